@@ -203,6 +203,15 @@ func limitedParse(api int, in []byte, n uint64, useOpt bool, variant int, entryS
 			if useOpt {
 				opts = append(opts, grammar.MaxExpressions(n))
 			}
+			if useOpt && variant%4 == 1 {
+				// an option value is reusable: parse once with it on a short
+				// input, then parse the real input with the very same value
+				grammar.Parse("", []byte("q == 1"), opts...)
+				e0, s0 = 0, verifsim.Steps()
+				for _, s := range entrySites {
+					e0 += verifsim.SiteHits(s)
+				}
+			}
 			val, err := grammar.Parse("", in, opts...)
 			if err != nil {
 				o.Err = err.Error()
@@ -230,6 +239,14 @@ func limitedParse(api int, in []byte, n uint64, useOpt bool, variant int, entryS
 					opts = []bexpr.Option{bexpr.WithMaxExpressions(n), bexpr.WithTagName("bexpr"), nil}
 				default:
 					opts = []bexpr.Option{bexpr.WithHookFn(func(v reflect.Value) reflect.Value { return v }), bexpr.WithMaxExpressions(n)}
+				}
+			}
+			if useOpt && variant%6 == 1 {
+				// the same option values serve two creations
+				bexpr.CreateEvaluator("q == 1", opts...)
+				e0, s0 = 0, verifsim.Steps()
+				for _, s := range entrySites {
+					e0 += verifsim.SiteHits(s)
 				}
 			}
 			ev, err := bexpr.CreateEvaluator(string(in), opts...)
@@ -429,7 +446,24 @@ func RunC11Case(env *C11Env, c C11Case, seed uint64) C11Result {
 		}
 		// probe runs one limited parse and applies the work bounds
 		probe := func(n uint64, variant int) (parseOutcome, bool) {
+			// a limited parse that is still running long after its proportional
+			// bound is stopped by the simulator (the parser turns the cap panic
+			// into an error) and reported, instead of hanging the worker
+			n1c := n + 1
+			if n1c == 0 {
+				n1c = ^uint64(0)
+			}
+			if n1c < (^uint64(0)/4-env.C)/(2*env.K) {
+				verifsim.SetHardCap(verifsim.Steps() + 2*(env.K*n1c+env.C) + 100000)
+			}
 			o, entries, steps := limitedParse(api, in, n, true, variant, env.EntrySites)
+			verifsim.SetHardCap(0)
+			if verifsim.CapHit() {
+				verifsim.ClearCapHit()
+				res.Budgets++
+				viol("work-proportional", n, 0, fmt.Sprintf("limited parse was still running after %d statements (more than twice %d*(n+1)+%d) and was stopped by the simulator", steps, env.K, env.C), o)
+				return o, false
+			}
 			res.Budgets++
 			be := isBudgetErr(o)
 			if ratio := float64(steps) / (float64(n) + 1); ratio > res.MaxRatio && be {
